@@ -8,6 +8,7 @@ import PqV.Drv.Stats
 import PqV.Drv.Part
 import PqV.Drv.Merge
 import PqV.Drv.Thrift
+import PqV.Drv.Dtype
 /-
   `pqv` — line-protocol driver over the executable definitions of PqV (Spec, Impl, Gen).
   One request per line on stdin, one reply per line on stdout.  Pure per line.
@@ -32,6 +33,7 @@ def handleLine (line : String) : String :=
     | "part" => handlePart op a
     | "merge" => handleMerge op a
     | "thrift" => handleThrift op a
+    | "dtype" => handleDtype op a
     | _ => s!"err unknown-stream {stream}"
   | _ => "err bad-request"
 
